@@ -770,3 +770,6 @@ impl Plan {
       .to_sat()
   }
 }
+
+#[cfg(ordinals_ord_verif)]
+pub mod verif;
